@@ -21,6 +21,7 @@ type Query struct {
 	Goal      Term
 	Decls     map[string]string
 	ExpectSat bool
+	Replay    *ReplayInfo // how to re-run a counterexample of this query on the real function (nil: not possible)
 }
 
 type Exec struct {
@@ -44,6 +45,7 @@ type Exec struct {
 	reached   map[string]bool
 	lemmaMode bool
 	loopEntryWM Term
+	replay    *ReplayInfo
 }
 
 func (x *Exec) fresh(prefix, sort string) Term {
